@@ -98,7 +98,8 @@ def registerNetworkValue(group, name, value):
         if name.lower().startswith(gname) and len(gname) < len(name):
             name = name[len(gname)+1:] # +1 for .
             parts = registry.split(name)
-            if len(parts) == 1 and parts[0] and ircutils.isChannel(parts[0]):
+            if len(parts) == 1 and parts[0] and \
+                    (parts[0].startswith(':') or ircutils.isChannel(parts[0])):
                 # This gets the network values so they always persist.
                 g.get(parts[0])()
     return g
@@ -119,6 +120,10 @@ def registerChannelValue(group, name, value, opSettable=True):
                 # This gets the network+channel values so they always persist.
                 g.get(parts[0])()
                 g.get(parts[0]).get(parts[1])()
+            elif len(parts) == 1 and parts[0] and parts[0].startswith(':'):
+                # This gets the network values (without a channel) so they
+                # always persist.
+                g.get(parts[0])()
             elif len(parts) == 1 and parts[0] and ircutils.isChannel(parts[0]):
                 # Old-style variant of the above, without a network
                 g.get(parts[0])()
